@@ -84,5 +84,7 @@ Definition search_interp (r : list Z) (t : Z) : sres * list nat := search (inter
 (* pivot = midpoint (alpha = 0.5: the non-arithmetic branch of utils.hpp:57) *)
 Definition half_piv (_ left rght : nat) : Z := Z.of_nat (rght - 1 - left) / 2.
 
-(* replay of a recorded pivot-offset tape (k-th iteration uses the k-th entry) *)
-Definition tape_piv (tape : list Z) (k _ _ : nat) : Z := nth k tape (-1).
+(* replay of a recorded tape of pivots (absolute indices; k-th iteration uses the k-th entry): the offset handed
+   to the clamp is  pivot - left ; an exhausted tape yields -1 *)
+Definition tape_piv (tape : list Z) (k left _ : nat) : Z :=
+  match nth_error tape k with Some p => p - Z.of_nat left | None => -1 end.
